@@ -641,6 +641,8 @@ _GE2 = BIN('Ge', L('custom_sample_bank'), K(2))
 row('C14', 'section::hit_objects::hit_samples::HitSampleInfo::new', 'suffix-only-from-custom-index>=2',
     _struct_init('section::hit_objects::hit_samples::HitSampleInfo', 'suffix',
                  OR(M('then', _GE2, ANY()), M('then_some', _GE2, ANY()), IF(_GE2, ANY(), ANY()))))
+row('C14', '<section::hit_objects::hit_samples::HitSoundType as std::str::FromStr>::from_str', 'hit-sound:whole-byte',
+    _contains(CAST(BIN('BitAnd', ANY(), K(255)), 'u8'), 'the hit-sound value keeps its low 8 bits (layering is judged on the whole byte)'))
 row('C14', HITOBJ, 'spinner-duration>=0',
     _let('duration', M('max', BIN('Sub', ANY(), L('start_time')), K(0.0)), every=False))
 row('C14', HITOBJ, 'hold-end>=start',
@@ -687,13 +689,16 @@ def _letters(ctx, hfn):
                 H.walk(a['body'], v2)
                 for l in lits:
                     if isinstance(l, str) and len(l) == 1:
-                        got[l] = names[-1] if names else None
+                        got[l] = set(names)
                 if a['pat'].get('k') == 'wild':
-                    got['_'] = names[-1] if names else None
+                    got['_'] = set(names)
     H.walk(hfn['body'], visit)
     exp = {'B': 'BEZIER', 'L': 'LINEAR', 'P': 'PERFECT_CURVE', '_': 'CATMULL'}
-    ok = got == exp
-    return ok, '' if ok else 'path type letters map to %s, expected %s' % (got, exp), None
+    consts = set(exp.values())
+    # each letter's arm yields its own constant and none of the others (the B arm may also build a B-spline
+    # of a parsed degree)
+    ok = set(got) == set(exp) and all(exp[k] in got[k] and not ((got[k] & consts) - {exp[k]}) for k in exp)
+    return ok, '' if ok else 'path type letters map to %s, expected %s' % ({k: sorted(v) for k, v in got.items()}, exp), None
 
 
 row('C14', PT, 'type-letters', _letters)
@@ -808,6 +813,9 @@ row('C15', PPB, 'break-forces-new-combo', _break_forces_combo)
 row('C15', PPB, 'break-passed-test',
     _contains(BIN('Lt', F(ANY(), 'end_time'), F(ANY(), 'start_time')),
               'a break counts once it ended before the object starts'))
+
+row('C15', TPN + 'difficulty::DifficultyPoint::new', 'slider-velocity-multiplier-clamped',
+    _struct_init(TPN + 'difficulty::DifficultyPoint', 'slider_velocity', CLAMP(L('speed_multiplier'), K(0.1), K(10.0))))
 
 # ------------------------------------------------------------------------------ C19
 row('C19', CURVE + 'progress_to_dist', 'clamp*dist',
